@@ -229,6 +229,7 @@ impl Check for LinkLayer {
             machines.push(Machine::new().with(pci).with(probe).arc());
         }
         let horizon = Duration::from_secs(3600);
+        let _release = ReleaseOnDrop(machines.clone());
         let (_status, panics): (Option<_>, _) = run_virtual(async { run_internet_with_timeout(&machines, horizon).await });
         panics_to_failure(&panics)?;
 
